@@ -478,8 +478,41 @@ func c03R3(c *Ctx, r *Report) {
 		r.cerr("C03.R3.escape-closure", "anchors", "isDomainNameLabelSpecial / zlexer.Next not found")
 		return
 	}
-	special := c.caseBytes(sp, "b")
-	lexer := c.caseBytes(lx, "x")
+	// the special octets: isDomainNameLabelSpecial walked for each of the 256 values (a switch, a table, a chain)
+	special := map[byte]bool{}
+	if spFn := c.ssaFunc("isDomainNameLabelSpecial"); spFn != nil && len(spFn.Params) == 1 {
+		x := &scalarExec{pkg: spFn.Pkg}
+		for v := 0; v < 256; v++ {
+			res := x.run(spFn, spFn.Blocks[0], 0, map[ssa.Value]int64{spFn.Params[0]: int64(v)}, 0)
+			if res.Returned && len(res.Results) == 1 && res.Decided[0] && res.Results[0] == 1 {
+				special[byte(v)] = true
+			}
+		}
+	}
+	// the octets the lexer gives a meaning of their own: the cases of its largest switch over octet constants
+	lexer := map[byte]bool{}
+	ast.Inspect(lx.Body, func(n ast.Node) bool {
+		sw, ok := n.(*ast.SwitchStmt)
+		if !ok || sw.Tag == nil {
+			return true
+		}
+		cur := map[byte]bool{}
+		for _, cl := range sw.Body.List {
+			for _, e := range cl.(*ast.CaseClause).List {
+				if k, ok := c.exprConst(e); ok && k >= 0 && k < 256 {
+					if tv, has := c.Info.Types[e]; has {
+						if bt, isB := tv.Type.Underlying().(*types.Basic); isB && (bt.Kind() == types.Uint8 || bt.Kind() == types.UntypedRune || bt.Kind() == types.Int32) {
+							cur[byte(k)] = true
+						}
+					}
+				}
+			}
+		}
+		if len(cur) > len(lexer) {
+			lexer = cur
+		}
+		return true
+	})
 	if len(special) < 5 || len(lexer) < 6 {
 		r.cerr("C03.R3.escape-closure", "tables", "could not extract the character classes (special=%d lexer=%d)", len(special), len(lexer))
 		return
